@@ -119,10 +119,69 @@ fn ref_run(list: &[(Vec<u8>, Vec<u8>)], ops: &[COp]) -> Vec<Option<(Vec<u8>, Vec
 }
 
 pub fn run_history(rec: &mut Recorder, seed: u64, hidx: u64, len: usize, nkeys: usize, scans_per_step: usize) {
+    run_history_with(rec, seed, hidx, len, nkeys, scans_per_step, None)
+}
+
+/// One key written many times with long values under a small target file size, flushed and
+/// compacted round after round with all versions retained: compactions cut that key's versions
+/// across ADJACENT FILES OF ONE LEVEL (`[..k] [k..k] [k..]`), the layout in which a bound or a seek
+/// that is exactly `k` must still find the newest version in the earlier file.  Random short
+/// histories do not produce it.
+fn spanning_history(rng: &mut Rng, variant: u64) -> (Cfg, Vec<Op>, Vec<u8>) {
+    let mut cfg = Cfg::gen(rng);
+    cfg.memtable_bytes = 1 << 20;
+    cfg.target_file = [128, 256, 512, 256][(variant % 4) as usize];
+    cfg.min_file = 64;
+    cfg.target_block = *rng.pick(&[64, 256]);
+    cfg.gc_versions = 40;
+    cfg.max_compaction_files = 64;
+    let hot = ALPHABET[9].to_vec(); // "m"
+    let others: Vec<Vec<u8>> = [1usize, 5, 10, 11].iter().map(|i| ALPHABET[*i].to_vec()).collect();
+    let mut ops = vec![];
+    let mut counter = 0u64;
+    let mut long = |counter: &mut u64| -> Vec<u8> {
+        *counter += 1;
+        let mut v = format!("v{}", counter).into_bytes();
+        v.extend(std::iter::repeat(b'.').take(70));
+        v
+    };
+    for round in 0..5 {
+        let writes = 5 + (variant as usize + round) % 4;
+        for w in 0..writes {
+            ops.push(Op::Put(hot.clone(), long(&mut counter)));
+            if w % 3 == 1 {
+                let k = rng.pick(&others).clone();
+                ops.push(Op::Put(k, long(&mut counter)));
+            }
+        }
+        if round == 3 {
+            ops.push(Op::Del(hot.clone()));
+            ops.push(Op::Put(hot.clone(), long(&mut counter)));
+        }
+        ops.push(Op::Flush);
+        for _ in 0..(16 + round * 2) {
+            ops.push(Op::Compact(1));
+        }
+    }
+    (cfg, ops, hot)
+}
+
+fn has_key_spanning_files(d: &crate::store::StateDump) -> bool {
+    d.levels.iter().skip(1).any(|l| l.windows(2).any(|w| w[0].last_key == w[1].first_key))
+}
+
+pub fn run_history_with(rec: &mut Recorder, seed: u64, hidx: u64, len: usize, nkeys: usize, scans_per_step: usize, directed: Option<u64>) {
     let mut rng = Rng::for_case(seed, 103, hidx);
-    let cfg = Cfg::gen(&mut rng);
+    let mut cfg = Cfg::gen(&mut rng);
     let mode = hidx % 4 % 3;
-    let ops = gen_history(&mut rng, if mode == 1 { len * 2 } else { len }, nkeys, mode);
+    let mut ops = gen_history(&mut rng, if mode == 1 { len * 2 } else { len }, nkeys, mode);
+    let mut focus: Option<Vec<u8>> = None;
+    if let Some(variant) = directed {
+        let (c, o, hot) = spanning_history(&mut rng, variant);
+        cfg = c;
+        ops = o;
+        focus = Some(hot);
+    }
     let root = scratch_dir(&format!("c03.{}", hidx));
     rec.aux(&format!("history {} cfg {} ops {}", hidx, cfg.render(), ops.iter().map(|o| o.render()).collect::<Vec<_>>().join(" ")));
     let mut sim = match Sim::open(&root, &cfg) {
@@ -167,10 +226,34 @@ pub fn run_history(rec: &mut Recorder, seed: u64, hidx: u64, len: usize, nkeys: 
         };
         let st = state_with_ids(&d);
         let comps_with_tomb = d.all_entries().iter().filter(|e| e.2.is_none()).count();
-        for _ in 0..scans_per_step {
-            let lo = gen_bound(&mut rng, nkeys);
-            let hi = gen_bound(&mut rng, nkeys);
-            let prog = gen_program(&mut rng, nkeys);
+        let spanning = has_key_spanning_files(&d);
+        if spanning {
+            rec.count("states_with_one_key_spanning_adjacent_files_of_a_level");
+        }
+        // directed histories: scans only once the tree has files, more of them where a key spans files
+        let nscans = match (&focus, spanning) {
+            (Some(_), true) => scans_per_step + 3,
+            (Some(_), false) => if matches!(op, Op::Compact(_)) { 0 } else { 1 },
+            (None, _) => scans_per_step,
+        };
+        for _ in 0..nscans {
+            let mut lo = gen_bound(&mut rng, nkeys);
+            let mut hi = gen_bound(&mut rng, nkeys);
+            let mut prog = gen_program(&mut rng, nkeys);
+            if let Some(hot) = &focus {
+                // bounds and seeks exactly at the hot key, half of the time
+                match rng.below(6) {
+                    0 => lo = Bound::Included(hot.clone()),
+                    1 => lo = Bound::Excluded(hot.clone()),
+                    2 => hi = Bound::Included(hot.clone()),
+                    3 => hi = Bound::Excluded(hot.clone()),
+                    _ => {}
+                }
+                if rng.chance(1, 2) {
+                    let at = rng.below(prog.len() as u64 + 1) as usize;
+                    prog.insert(at, COp::Seek(hot.clone()));
+                }
+            }
             let req = format!("kvs scan {} :: {} {} :: {}", st, render_bound(&lo), render_bound(&hi), render_ops(&prog));
             // implementation
             let obs: Result<Vec<Option<(Vec<u8>, u64, Option<Vec<u8>>)>>, String> = match guarded(std::panic::AssertUnwindSafe(|| -> Result<Vec<Option<(Vec<u8>, u64, Option<Vec<u8>>)>>, String> {
@@ -251,6 +334,12 @@ pub fn run(args: &Args) {
     for h in 0..nh {
         let nkeys = if h % 3 == 0 { 4 } else if h % 3 == 1 { 7 } else { 12 };
         run_history(&mut rec, args.seed, h, len, nkeys, sps);
+    }
+    // directed: one key's versions across adjacent files of a level (after the seeded histories, so
+    // their case numbers do not move)
+    let nd = if args.thorough { 12 } else { 4 };
+    for v in 0..nd {
+        run_history_with(&mut rec, args.seed, nh + v, len, 12, sps, Some(v));
     }
     rec.finish(
         "store histories as in C01; after every op several (start bound, end bound, cursor program) triples are run on KeyValueStore::range_scan: bounds unbounded/included/excluded on both ends over the key alphabet (so empty and inverted ranges occur), programs of 2-12 calls of seek_to_first/seek_to_last/seek/next/prev with reversals; non-trivial = at least two live keys in range while the store holds a tombstone and at least one SST; distinct by (state, bounds, program)",
